@@ -54,7 +54,10 @@ pub fn shard(seed: u64, shard: u64, n: u64, literal_plus: bool) -> Tally {
                     1
                 },
             };
-            let (case, facts) = make_case(&l, &cfg, &mut sp, &Overrides::default(), delta);
+            let (mut case, facts) = make_case(&l, &cfg, &mut sp, &Overrides::default(), delta);
+            // a conformant request is accepted whatever the key provider's pace: readiness and answer delayed by 0–2 polls
+            case.script.ready_pending = (s % 3) as u8;
+            case.script.ans_pending = ((s + i) % 3) as u8;
             let rec = execute(&case);
             t.eval();
             if matches!(rec.outcome, Outcome::NotBuilt(_)) {
@@ -174,7 +177,7 @@ pub fn run(tier: Tier) -> i32 {
     ctx.gate("accepted at exactly ±15 min", tally.get("accepted/boundary_clock"), tier.n(100, 500));
     let rep = Report {
         level: "exploration",
-        rule: "W-sign: random logical requests (decoded path segments, query/form pairs, headers, body, carrier, token, options) signed by the reference signer from the logical view, each rendered in 4 admissible wire spellings (1 plain + 3 varied: escape case, needless escapes, + vs %20, parameter and header order, spacing, redundant path structure, timestamp rendering); clock uniformly within ±15 min incl. both bounds. A case is non-trivial when the reference model's wire-side analysis independently says must-accept and the library accepted it; distinct = distinct (wire, config, provider) hashes.".into(),
+        rule: "W-sign: random logical requests (decoded path segments, query/form pairs, headers, body, carrier, token, options) signed by the reference signer from the logical view, each rendered in 4 admissible wire spellings (1 plain + 3 varied: escape case, needless escapes, + vs %20, parameter and header order, spacing, redundant path structure, timestamp rendering); clock uniformly within ±15 min incl. both bounds; the key provider (which relies on the tower Service contract: no call without a preceding ready) signals readiness and answers after 0–2 pending polls. A case is non-trivial when the reference model's wire-side analysis independently says must-accept and the library accepted it; distinct = distinct (wire, config, provider) hashes.".into(),
         assumptions: vec![
             "reference model calibrated on the AWS test-suite vectors (count in coverage.calibrated_vectors)".into(),
             "region/service/access key ASCII without '/', header values without TAB, media type in lower case, years 0001-9998 (DESIGN §6)".into(),
